@@ -170,9 +170,8 @@ func (fr *Frame) execInstr(ins ssa.Instruction, pc string, st *State) string {
 				fr.set(x, x.Type(), fmt.Sprintf("(- %s)", fr.v1(x.X)))
 			}
 		case token.ARROW:
-			pc = fr.runSites(ins, "recv", pc, st, nil)
 			if !vc.g.recvNoHavoc(fr) {
-				vc.havocAll(st)
+				fr.havocInterference(st)
 				vc.note("channel receive: havoc of all heap state (other goroutines may have run)")
 			}
 			if x.CommaOk {
@@ -182,6 +181,7 @@ func (fr *Frame) execInstr(ins ssa.Instruction, pc string, st *State) string {
 				fr.vals[x] = []string{vc.fresh(fr.prefix+x.Name(), d.sortOf(x.Type()))}
 				pc = fr.assume(pc, vc.typeAssume(fr.vals[x][0], x.Type(), st))
 			}
+			pc = fr.runSites(ins, "recv", pc, st, nil)
 		case token.XOR:
 			vc.note("bitwise complement abstracted")
 			fr.vals[x] = []string{vc.fresh(fr.prefix+x.Name(), d.sortOf(x.Type()))}
@@ -344,7 +344,7 @@ func (fr *Frame) execInstr(ins ssa.Instruction, pc string, st *State) string {
 	case *ssa.Send:
 		pc = fr.runSites(ins, "send", pc, st, nil)
 	case *ssa.Select:
-		vc.havocAll(st)
+		fr.havocInterference(st)
 		vc.note("select: nondeterministic branch, havoc of all heap state")
 		tup := x.Type().(*types.Tuple)
 		var ts []string
@@ -742,6 +742,9 @@ func (fr *Frame) lookup(x *ssa.Lookup, pc *string, st *State) {
 		fr.set(x, mt.Elem(), v)
 	}
 	*pc = fr.assume(*pc, vc.typeAssume(fr.vals[x][0], mt.Elem(), st))
+	fr.lookupIn = &lookupInfo{key: k, val: fr.vals[x][0], ok: inDom, keyT: mt.Key(), valT: mt.Elem()}
+	*pc = fr.runSites(x, "lookup", *pc, st, nil)
+	fr.lookupIn = nil
 }
 
 func (fr *Frame) next(x *ssa.Next, pc *string, st *State) {
